@@ -14,6 +14,7 @@ LEVEL_TEXT = (
     "any write; (R4) the same amount and the right parties in delegate / undelegate / redelegate; (R5) payout only for "
     "the front entry with payout_at <= block.time, to its delegator, of its amount, from the staking pool. NOT decided: "
     "amounts and maturity arithmetic as numbers, absence of arithmetic overflow panics."
+    " Every non-Err result of update_rewards is dominated by the validator record being present; of the Delegate / Undelegate arms by the non-zero-amount guard and the successful stake change; of Redelegate by both stake changes; of add_stake / remove_stake by validate_denom; of update_stake by update_rewards."
 )
 EXPLANATION = LEVEL_TEXT
 TRUSTED = ["rustc MIR construction", "cwmt-facts driver", "vlib (dominators, reachability, provenance)", "cw-storage-plus Map/Item, std BTreeSet/VecDeque"]
